@@ -2,6 +2,9 @@ import Pyunicorn.Lemmas.Net
 import Pyunicorn.Lemmas.NetPaths
 import Pyunicorn.Lemmas.NetAlg
 import Pyunicorn.Lemmas.NetCore
+import Pyunicorn.Lemmas.NetCoreFull
+import Pyunicorn.Lemmas.NetBetwPaths
+import Pyunicorn.Lemmas.NetBetwAsm
 import Pyunicorn.Generated.ArithC03
 /-!
 # C03 — Network measures equal their published definitions
@@ -816,15 +819,11 @@ theorem assortativity_eq_pearson (directed : Bool) (n : Nat) (a : Adj) :
 
 /-! ### coreness by peeling -/
 
-/-- **partial.**  Full statement: `coreness()[v] = c` iff `v` lies in the `c`-core (the largest node set
-all of whose induced degrees — in + out for directed networks — are `≥ c`) and not in the `(c+1)`-core.
-Proved here, for one level `k` of the peeling model `peel n a directed k fuel alive`:
-(i) it only removes nodes; (ii) it keeps every node set `S ⊆ alive` of minimum induced degree `≥ k`;
-(iii) if it stops at a fixpoint of the round it has itself minimum induced degree `≥ k` — hence it is
-the largest such set, the `k`-core inside `alive`.
-Missing: `fuel = n` always reaches the fixpoint (every non-final round removes a node), and the outer
-loop over `k` (`coreLoop`, fuel `2n+1`); `graph.coreness()` itself is igraph (compared on every run). -/
-theorem coreness_peel_partial (n : Nat) (a : Adj) (directed : Bool) (k fuel : Nat) (alive : List Bool) :
+/-- one level `k` of the peeling model: (i) it only removes nodes; (ii) it keeps every node set
+`S ⊆ alive` of minimum induced degree `≥ k`; (iii) at a fixpoint of the round it has itself minimum
+induced degree `≥ k`.  (Round 2's `coreness_peel_partial`; the two missing pieces — fuel and the loop
+over `k` — are the next three theorems.) -/
+theorem coreness_peel_level (n : Nat) (a : Adj) (directed : Bool) (k fuel : Nat) (alive : List Bool) :
     SubB (peel n a directed k fuel alive) alive ∧
     (∀ S, MinDeg n a directed k S → SubB S alive → SubB S (peel n a directed k fuel alive)) ∧
     (peelStep n a directed k (peel n a directed k fuel alive) = peel n a directed k fuel alive →
@@ -832,6 +831,96 @@ theorem coreness_peel_partial (n : Nat) (a : Adj) (directed : Bool) (k fuel : Na
   ⟨peel_sub n a directed k fuel alive,
    fun S hS hsub => peel_keeps n a directed k S hS fuel alive hsub,
    peelStep_fixpoint n a directed k _⟩
+
+/-- **fuel sufficiency**: every round of the peeling that is not the last one removes a node, so the
+fuel `n` the model uses always reaches a fixpoint of the round. -/
+theorem coreness_fuel_suffices (n : Nat) (a : Adj) (directed : Bool) (k : Nat) (alive : List Bool)
+    (hlen : alive.length = n) :
+    peelStep n a directed k (peel n a directed k n alive) = peel n a directed k n alive :=
+  peel_reaches_fixpoint n a directed k alive hlen
+
+/-- **one level of the peeling returns the `k`-core inside `alive`**: `v` survives iff it lies in a
+subset of `alive` all of whose induced degrees (in + out for directed networks) are `≥ k`. -/
+theorem coreness_level_eq_kcore (n : Nat) (a : Adj) (directed : Bool) (k : Nat) (alive : List Bool)
+    (hlen : alive.length = n) (v : Nat) :
+    (peel n a directed k n alive).getD v false = true ↔
+      ∃ S, MinDeg n a directed k S ∧ SubB S alive ∧ S.getD v false = true :=
+  peel_eq_core n a directed k alive hlen v
+
+/-- **`coreness()[v] = c` iff `v` is a member of the `c`-core but not of the `(c+1)`-core** (the
+docstring's definition; `InCore k v` = `v` lies in some node set all of whose induced degrees are
+`≥ k`, i.e. in the maximal such set).  About the peeling model `coreness` (outer loop over `k` with fuel
+`2n+1`, inner loop with fuel `n`), for every graph, directed or not; `graph.coreness()` itself is igraph
+and is compared with the model on every run. -/
+theorem coreness_eq_def (n : Nat) (a : Adj) (directed : Bool) (v c : Nat) (hv : v < n) :
+    (coreness n a directed).getD v 0 = c ↔
+      (InCore n a directed c v ∧ ¬ InCore n a directed (c + 1) v) := by
+  have h := coreness_spec n a directed v hv
+  constructor
+  · intro hc
+    refine ⟨(h c).mpr (by omega), fun hin => ?_⟩
+    have := (h (c + 1)).mp hin
+    omega
+  · rintro ⟨h1, h2⟩
+    have := (h c).mp h1
+    have : ¬ (c + 1 ≤ (coreness n a directed).getD v 0) := fun hle => h2 ((h (c + 1)).mpr hle)
+    omega
+
+/-- every node of a `k`-core has at least `k` links, so no core beyond `2n` exists and the loop over
+`k` ends before its fuel does -/
+theorem coreness_le (n : Nat) (a : Adj) (directed : Bool) (v : Nat) (hv : v < n) :
+    (coreness n a directed).getD v 0 ≤ n * 2 :=
+  InCore_bound ((coreness_spec n a directed v hv _).mpr (Nat.le_refl _))
+
+/-! ### (n.s.i.) shortest-path / interregional betweenness: kernel `_nsi_betweenness` (round 3) -/
+
+section Betweenness
+open Pyunicorn.NetBetw
+
+/-- **the weighted number of shortest paths is the sum over all enumerated shortest paths of the product
+of the node weights** — the recursion over the last link (what `multiplicity_to_j` accumulates in the
+kernel's forward phase) evaluated against the definition by enumeration, for every graph, distance
+function, weight vector and pair of nodes. -/
+theorem pathCount_eq_enumeration (n : Nat) (a : Adj) (w : Nat → Rat) (d : DistFn) (j l : Nat) :
+    sigma n a w d j l = sigmaPaths n a w d j l :=
+  sigma_eq_sigmaPaths n a w d j l
+
+/-- **the numerator of the pair dependency `σ_js(v)`** (restricted recursion) **is the sum over the
+enumerated shortest `j → s` paths that visit `v`.** -/
+theorem pathCountThrough_eq_enumeration (n : Nat) (a : Adj) (w : Nat → Rat) (d : DistFn) (j v s : Nat) :
+    sigmaThru n a w d j v s = sigmaThruPaths n a w d j v s :=
+  sigmaThru_eq_paths n a w d j v s
+
+/-- **index arithmetic of the wrapper and the kernel**: with `k = outdegree`, `offsets[i] = Σ_{i' < i} k[i']`
+and `flat_neighbors` = the column indices of the row-major non-zero coordinates, the kernel's inner loop
+`for l_index in range(offsets[i], offsets[i] + k[i])` visits exactly the neighbours of `i`, in increasing
+order — for every graph and every node. -/
+theorem nsiBetweenness_inner_loop_range (n : Nat) (a : Adj) (i : Nat) (hi : i < n) :
+    ((flatArr n a).drop ((offsetsOf (degArr n a)).getD i 0)).take ((degArr n a).getD i 0) = nbrs n a i :=
+  wrapper_slice n a i hi
+
+/-- **partial.**  Full statement: for every undirected simple graph, positive node weights, source mask
+and target list, `nsiBetweenness n a w isSrc targets = nsiBetweennessDef n a w (dist n a) isSrc targets`,
+i.e. the kernel returns `b_v = (1/w_v) Σ_{t ∈ targets} Σ_{s source, s ≠ v ≠ t} w_t w_s σ_ts(v)/σ_ts`
+(unit weights: interregional betweenness; all nodes as sources and targets: twice the betweenness).
+Proved here (for every graph, weight vector, mask and target list): the loop `for j in targets` with its
+accumulation `betweenness_times_w += w[j] * (betweenness_to_j − excess_to_j)` and the wrapper's division
+by `w` turn per-target sweep results equal to the definition's inner sum into the published double sum.
+Together with `pathCount_eq_enumeration`, `pathCountThrough_eq_enumeration` (the definition's counts are
+sums over enumerated paths) and `nsiBetweenness_inner_loop_range` (the loop ranges).
+Missing: the hypothesis `h` itself — the forward phase leaves the state `FwdOK` (`Lemmas/NetBetwSpec.lean`:
+queue = reachable nodes by distance, `multiplicity_to_j = σ`, predecessor slices), the backward sweep then
+solves the recursion `BrandesSol`, whose unique solution is `contribDef`.  The equality of the two sides
+is compared in exact rational arithmetic inside the Lean model on every run (driver requests `betw` /
+`betwdef`), and both are compared with the implementation. -/
+theorem nsiBetweenness_eq_def_partial (n : Nat) (a : Adj) (w : Nat → Rat) (isSrc : List Bool)
+    (targets : List Nat)
+    (h : ∀ j, j ∈ targets → ∀ l, l < n →
+      sweepDiff n a w isSrc j l = contribDef n a w (dist n a) isSrc j l) :
+    nsiBetweenness n a w isSrc targets = nsiBetweennessDef n a w (dist n a) isSrc targets :=
+  nsiBetweenness_assembly n a w isSrc targets (dist n a) h
+
+end Betweenness
 
 /-! ### translator tie: the size expressions of the model are the ones in the current source
 (`Pyunicorn.Generated.ArithC03` is regenerated from `network.py` by `translate/gen_arith.py` on every run) -/
@@ -907,6 +996,20 @@ example : peel 5 p4iso false 2 5 (List.replicate 5 true) = [false, false, false,
 example : MinDeg 5 k5 false 4 (List.replicate 5 true) :=
   peelStep_fixpoint 5 k5 false 4 _ (by decide +kernel)
 example : coreness 5 p4iso false = [1, 1, 1, 1, 0] := by decide +kernel
+example : InCore 5 k5 false 4 0 :=
+  ⟨List.replicate 5 true, peelStep_fixpoint 5 k5 false 4 _ (by decide +kernel), by decide⟩
+example : coreness 5 k5 false = [4, 4, 4, 4, 4] ∧ coreness 3 d3 true = [2, 2, 2] := by decide +kernel
+/-- the 4-cycle 0–1–3–2–0: two shortest paths between opposite corners -/
+def c4 : Adj := fun i j => (i, j) ∈ [(0, 1), (1, 0), (0, 2), (2, 0), (1, 3), (3, 1), (2, 3), (3, 2)]
+def w4 : Nat → Rat := fun i => [1, 2, 1 / 2, 3].getD i 1
+example : NetBetw.shortestPaths 4 c4 (dist 4 c4) 0 3 = [[0, 1, 3], [0, 2, 3]] := by decide +kernel
+example : NetBetw.sigma 4 c4 w4 (dist 4 c4) 0 3 = 15 / 2
+    ∧ NetBetw.sigmaThru 4 c4 w4 (dist 4 c4) 0 1 3 = 6 := by decide +kernel
+example : NetBetw.nsiBetweenness 4 c4 w4 [true, true, true, true] [0, 3]
+    = NetBetw.nsiBetweennessDef 4 c4 w4 (dist 4 c4) [true, true, true, true] [0, 3] := by decide +kernel
+example : NetBetw.sweepDiff 4 c4 w4 [true, true, true, true] 0 1
+    = NetBetw.contribDef 4 c4 w4 (dist 4 c4) [true, true, true, true] 0 1 := by decide +kernel
+example : NetBetw.nsiBetweenness 4 c4 w4 [true, true, true, true] [0, 3] ≠ [0, 0, 0, 0] := by decide +kernel
 example : avgPathLengthU 5 (dist 5 p4iso) = some (5 / 3) ∧ diameter 5 (dist 5 p4iso) = 3 := by decide +kernel
 
 end Pyunicorn.Net
